@@ -132,4 +132,3 @@ func (hs *hasher) walk(v reflect.Value) {
 		hs.w("?%s;", v.Kind())
 	}
 }
-
